@@ -137,6 +137,9 @@ func run(c *core.Ctx) {
 		if a.Name == "full" && c.Quick() {
 			ml-- // the printer is ~10x slower than the parser; the full alphabet is C03's
 		}
+		if c.Quick() && ml > 10 {
+			ml = 10 // long variable-definition sentences are C03's; printing them adds nothing new
+		}
 		c.R.Bounds["viable_prefix_tokens_"+a.Name] = ml
 		langx.TokenDFS(a, ml, c.Shard, c.NShards, func(toks []string, text []byte) bool {
 			if len(toks)%4 == 0 && c.Expired() {
